@@ -233,6 +233,7 @@ type stepObs struct {
 	Eff    int   `json:"ea,omitempty"` // evOpen: 1 = extractIP kept the zone, the gates see this peer as a different address
 }
 type caseIn struct {
+	Race  []int          `json:"race"` // [goroutines, rounds]: concurrent phase 1 on as many connections + concurrent GenerateChallenge calls
 	Fam   map[string]int `json:"fam"`
 	Slots []int   `json:"slots"`
 	Addrs []int   `json:"addrs"`
@@ -925,12 +926,92 @@ func (w *world) corrupt(x, kind int) {
 	cl.broken = true
 }
 
+// G connections run phase 1 for one client at the same moment, R rounds, through the real SessionManager + ServerAuthHandler; then G
+// goroutines call the real SecretKeyManager.GenerateChallenge R times each.  Every challenge issued must be distinct from every other
+// (a response to one connection's challenge must never verify against another connection's pending challenge).
+func runChallengeRace(g, r int, out *caseOut) interface{} {
+	out.Steps = []stepObs{}
+	cl, err := fx.Cloud.GenerateAnonymousCredentials()
+	must(err)
+	req, _ := json.Marshal(&packet.HandshakeRequest{ClientID: cl.ID, Version: "3.0", Protocol: "tcp", ConnectionType: "control"})
+	ids := make([]string, g)
+	for i := 0; i < g; i++ {
+		ip := fmt.Sprintf("10.250.%d.%d", (caseSeq>>8)&255, i+1)
+		tr := &transport{ip: ip, remote: remoteAddr(ip, 0, 0)}
+		conn, err := fx.Session.CreateConnection(tr, tr)
+		must(err)
+		ids[i] = conn.ID
+	}
+	var mu sync.Mutex
+	seen := map[string]string{}
+	dup := ""
+	note := func(ch, who string) {
+		if ch == "" {
+			return
+		}
+		mu.Lock()
+		if prev, ok := seen[ch]; ok && dup == "" {
+			dup = fmt.Sprintf("challenge %s... handed out twice (%s and %s)", ch[:12], prev, who)
+		}
+		seen[ch] = who
+		mu.Unlock()
+	}
+	for round := 0; round < r; round++ {
+		var wg sync.WaitGroup
+		start := make(chan struct{})
+		for i := 0; i < g; i++ {
+			wg.Add(1)
+			go func(i int) {
+				defer wg.Done()
+				<-start
+				_ = fx.Session.HandlePacket(&types.StreamPacket{ConnectionID: ids[i],
+					Packet: &packet.TransferPacket{PacketType: packet.Handshake, Payload: req}, Timestamp: time.Now()})
+				if cc := fx.Session.GetControlConnection(ids[i]); cc != nil {
+					note(cc.GetPendingChallenge(), fmt.Sprintf("phase 1 on connection %d, round %d", i, round))
+				}
+			}(i)
+		}
+		close(start)
+		wg.Wait()
+	}
+	var wg sync.WaitGroup
+	start := make(chan struct{})
+	for i := 0; i < g; i++ {
+		wg.Add(1)
+		go func(i int) {
+			defer wg.Done()
+			<-start
+			for k := 0; k < r*8; k++ {
+				ch, err := fx.SecretKeys.GenerateChallenge()
+				if err == nil {
+					note(ch, fmt.Sprintf("GenerateChallenge call %d of goroutine %d", k, i))
+				}
+			}
+		}(i)
+	}
+	close(start)
+	wg.Wait()
+	for _, id := range ids {
+		_ = fx.Session.CloseConnection(id)
+	}
+	_ = fx.Cloud.DeleteClient(cl.ID)
+	out.Issued = len(seen)
+	if dup != "" {
+		out.Viol = append(out.Viol, viol{Step: 0, Kind: "challenge-reissued", Msg: dup + fmt.Sprintf(" — %d goroutines x %d rounds", g, r)})
+	}
+	out.PropOK = dup == ""
+	return out
+}
+
 func runCase(raw json.RawMessage) interface{} {
 	var in caseIn
 	must(json.Unmarshal(raw, &in))
 	caseSeq++
 	w := &world{blackWide: map[int]bool{}, quiet: map[int]bool{}, specPerm: map[int]bool{}, permSeen: map[int]bool{}, whiteIP: map[int]bool{}, whiteCidr: map[int]bool{}, fam: map[int]int{}, specBan: map[int]bool{}, lostSeen: map[int]bool{}, blackIP: map[int]bool{}, blackCidr: map[int]bool{}, conns: map[int]*hconn{}, addrs: map[int]string{}, clients: []*hclient{nil}, secrets: []string{""}, chals: []string{""}}
 	out := &caseOut{}
+	if len(in.Race) == 2 {
+		return runChallengeRace(in.Race[0], in.Race[1], out)
+	}
 	for k, v := range in.Fam {
 		var a int
 		fmt.Sscanf(k, "%d", &a)
